@@ -484,6 +484,19 @@ where
     }
 }
 
+// Verification hook (off by default, enabled only with `--cfg bacon_verif`):
+// read-only access to the stepper an iterator drives.
+#[cfg(bacon_verif)]
+impl<D: Dimension, T: IVPStepper<D>> IVPIterator<D, T>
+where
+    DefaultAllocator: Allocator<T::Field, D>,
+{
+    #[doc(hidden)]
+    pub fn verif_solver(&self) -> &T {
+        &self.solver
+    }
+}
+
 #[cfg(test)]
 mod test {
     use super::*;
